@@ -110,4 +110,10 @@ func (P) Generate(g *core.Gen) {
 	for i := g.N(2, 24); i > 0; i-- {
 		genImageFamily(g.R, emit)
 	}
+	for i := g.N(1, 6); i > 0; i-- {
+		genLru(g.R, emit)
+	}
+	for i := g.N(3, 30); i > 0; i-- {
+		genFlushBoundary(g.R, emit)
+	}
 }
